@@ -21,7 +21,7 @@ ID = "C04"
 LEVEL = "model_checking"
 MIN_OUTCOMES = 2
 MANIFEST = {
-    'text': 'Complete enumeration of the stated content table (11 filler flavours - text to the left and right of every occurrence and on the lines around it - incl. non-ASCII, astral, control and regex characters and text whose length changes under Unicode normalisation, case mapping or stripping of invisible characters x 6 line-ending regimes x final newline x BOM x blank edge lines x arrangements incl. occurrences at the very start/end of a file and single-line files x v2/legacy patterns; projects in which one glob entry is shared by three files and one of them is named again by another entry, with decoy text in the siblings; the config file itself carries non-ASCII text and, in CRLF projects, CRLF line endings): each project is updated by the real CLI in-process and, for the reduced table, again by `python -m bumpver` under LC_ALL=C with UTF-8 mode off; file bytes are compared with the skeleton they were constructed from, so any byte outside a matched span that changes is detected; bystander files keep bytes and mtime.',
+    'text': 'Complete enumeration of the stated content table (11 filler flavours - text to the left and right of every occurrence and on the lines around it - incl. non-ASCII, astral, control and regex characters and text whose length changes under Unicode normalisation, case mapping or stripping of invisible characters x 6 line-ending regimes x final newline x BOM x blank edge lines x arrangements incl. occurrences at the very start/end of a file and single-line files x v2/legacy patterns; projects in which one glob entry is shared by three files and one of them is named again by another entry, with decoy text in the siblings; the config file itself carries non-ASCII text and, in CRLF projects, CRLF line endings): each project is updated by the real CLI in-process and, for the reduced table, again by `python -m bumpver` under LC_ALL=C with UTF-8 mode off; file bytes are compared with the skeleton they were constructed from, so any byte outside a matched span that changes is detected; bystander files keep bytes and mtime. A further chunk commits, tags and pushes through the fake VCS with every VCS step and each hook failing in turn after the rewrite, over all six line-ending regimes: each file must then be byte-identical either to what it was or to what the fault-free update writes.',
     'note': 'code points outside the alphabet and files beyond a few hundred bytes are not covered',
     'technique': 'exhaustive enumeration of a bounded file-content space executed on the real CLI (two locales), by-construction byte oracle',
 }
@@ -61,6 +61,7 @@ def explore(tier, seed):
     chunks = [("v2", tier, i, fill) for i in range(len(cases(tier))) for fill in sorted(projgen.FILL)]
     chunks += [("legacy", tier, i, fill) for i in range(len(legacy_cases())) for fill in sorted(projgen.FILL)]
     chunks += [("locale", tier, i, None) for i in range(4)]
+    chunks += [("vcsfail", tier, i, None) for i in range(2)]
     return pool.run_chunks(run_chunk, chunks)
 
 
@@ -148,10 +149,68 @@ def run_chunk(chunk):
         label, vp, oldv, newv, fps = legacy_cases()[idx]
         for lid, arrangement, f in content_table([fps[:1], fps] if len(fps) > 1 else [fps], fill, tier):
             legacy_project(st, label, vp, oldv, newv, lid, arrangement, f)
+    elif kind == "vcsfail":
+        failing_vcs_step(st, tier, idx)
     else:
         locale_pass(st, tier, idx)
     os.chdir("/")
     return st
+
+
+VCS_FAULTS = (("add", 0), ("commit", 0), ("commit", 0, "error: gpg failed to sign the data\nfatal: failed to write commit object\n"), ("tag", 0), ("push", 0),
+              "pre-hook-fails", "post-hook-fails")
+
+
+def failing_vcs_step(st, tier, idx):
+    """An update that commits, tags and pushes, with each VCS step (and each hook) failing in turn AFTER the files were rewritten: whatever
+    the tool then does with the files (leave them rewritten, put them back), every byte outside the matches stays - each file is, byte for
+    byte, either what it was or what the fault-free update writes."""
+    from .. import fakevcs
+
+    pat, label, old, new = cases(tier)[idx]
+    new_text = M.render(pat.tree, new)
+    fps = fps_sets_for(pat, old, new, "bumpver.toml")[0]
+    for fill in ("ascii", "euro"):
+        for regime in REGIMES:
+            for final_nl in (True, False):
+                f = projgen.build_file("a.txt", fps, "own-lines", fill, regime, final_nl)
+                lid = f"vcs-step-fails:{fps[0].pid}:{fill}:{regime}:{'nl' if final_nl else 'nonl'}"
+                tmp = Stats()
+                o, after_ok, tree = c03.run_project(tmp, pat, label, old, new, "bumpver.toml", lid, "vcs-step-fails", [f], [("a.txt", [fp.raw for fp in f.patterns])], False,
+                                                    want=("bytes",), prefix="C04", cfg_eol="\r\n" if regime == "CRLF" else "\n")
+                st.merge(tmp)
+                if o is None or o.exit != 0:
+                    continue
+                for fault in VCS_FAULTS:
+                    world.clear_dir(".")
+                    world.write_tree(tree)
+                    world.write_tree({"pre.sh": b"#!/bin/sh\n", "post.sh": b"#!/bin/sh\n"})
+                    world.mark_repo("git")
+                    hooks = {"pre.sh": (3, b"", b"no\n") if fault == "pre-hook-fails" else (0, b"", b""), "post.sh": (3, b"", b"no\n") if fault == "post-hook-fails" else (0, b"", b"")}
+                    fake = fakevcs.install(fakevcs.FakeVCS("git", tags_all=[], status=[], remote="upstream", hooks=hooks, fail=fault if isinstance(fault, tuple) else None))
+                    try:
+                        o2 = world.cli("update", "--no-fetch", "--ignore-vcs-tag", "--set-version", new_text, "--commit", "--tag-commit", "--push",
+                                       "--pre-commit-hook", "pre.sh", "--post-commit-hook", "post.sh")
+                    finally:
+                        fakevcs.uninstall()
+                    st.evaluations += 1
+                    st.transitions += 1
+                    after = world.read_tree(".")
+                    fname = fault if isinstance(fault, str) else fault[0] + ("(real stderr)" if len(fault) > 2 else "")
+                    case = {"pattern": pat.text, "states": label, "layout": lid, "format": "bumpver.toml", "vcs_fault": fname}
+                    st.observe((case, o2.exit, o2.crashed, sorted(after.items())))
+                    st.state(sorted(after.items()), fname)
+                    if o2.exit == 0:
+                        st.counters["vcs_fault_not_reached_or_tolerated"] += 1
+                    bad = [k for k in ("a.txt", "bumpver.toml", "bystander.txt") if after.get(k) not in (tree.get(k), after_ok.get(k))]
+                    if bad:
+                        st.outcomes["violation"] += 1
+                        st.violation(f"C04:bytes:after-failed-vcs-step:{fname}:{regime if '+' in regime or regime != 'LF' else 'LF'}", case,
+                                     {"files": bad, "exit": o2.exit, "content_after": {k: after.get(k, b"")[:200] for k in bad}})
+                    else:
+                        st.validated += 1
+                        st.nontriv(case)
+                        st.outcomes["bytes-kept-after-failed-vcs-step"] += 1
 
 
 def legacy_project(st, label, vp, oldv, newv, lid, arrangement, f, env=None):
@@ -254,6 +313,13 @@ def replay(case, st):
         if case.get("locale"):
             for part in range(4):
                 locale_pass(st, "thorough", part)
+            return
+        if case.get("vcs_fault"):
+            for tier in ("quick", "thorough"):
+                for idx, (pat, label, _o, _n) in enumerate(cases(tier)[:2]):
+                    if pat.text == case["pattern"] and label == case["states"]:
+                        failing_vcs_step(st, tier, idx)
+                        return
             return
         for tier in ("quick", "thorough"):
             if "legacy" in case:
